@@ -88,7 +88,7 @@ def optEntS {K : Type} (sk : K → String) (o : Option (K × Nat)) : String :=
   | some e => entS sk e
 
 /-- one op on the BTreeIndex model -/
-def bExec {K : Type} (cmp : K → K → Ordering) (keq : K → K → Bool) (sk : K → String)
+def bExec {K : Type} (cmp : K → K → Ordering) (sk : K → String)
     (t : BT K Nat) : POp K → BT K Nat × String
   | .ins k v => let r := bInsert cmp t k v; (r.1, optS r.2)
   | .rem k => let r := bRemove cmp t k; (r.1, optS r.2)
@@ -99,10 +99,7 @@ def bExec {K : Type} (cmp : K → K → Ordering) (keq : K → K → Bool) (sk :
   | .clear => (bClear t, ".")
   | .min => (t, optEntS sk (bMin t))
   | .max => (t, optEntS sk (bMax t))
-  | .range lo hi =>
-    match bRange cmp keq t lo hi with
-    | none => (t, "!")
-    | some es => (t, "[" ++ entsS sk es ++ "]")
+  | .range lo hi => (t, "[" ++ entsS sk (bRange cmp t lo hi) ++ "]")
 
 /-- one op on the plain-map specification (Int keys) -/
 def sExec (sk : Int → String) (a : List (Int × Nat)) : POp Int → List (Int × Nat) × String
@@ -154,57 +151,20 @@ def opToInt {K : Type} (f : K → Int) : POp K → POp Int
       | .exc k => .exc (f k)
     .range (g lo) (g hi)
 
-def addSig (sigs : List String) (s : String) : List String := if sigs.contains s then sigs else sigs ++ [s]
 
-/-- compare per-op results; collect the signatures of the differing ops -/
-def sigsOf (nanLine : Bool) : List String → List String → List String → List String
-  | m :: ms, s :: ss, acc =>
-    let acc :=
-      if m == s then acc
-      else if m == "!" then addSig acc "btree-range-panic"
-      else if nanLine then addSig acc "orderedfloat-nan-equals-everything"
-      else addSig acc "idx-deviation"
-    sigsOf nanLine ms ss acc
-  | _, _, acc => acc
-
-def mkOut (nanLine : Bool) (mres sres : List String) (mdump sdump : String) : Out :=
+def mkOut (mres sres : List String) (mdump sdump : String) : Out :=
   let m := joinWith "," mres ++ "|" ++ mdump
   let s := joinWith "," sres ++ "|" ++ sdump
-  let sigs := sigsOf nanLine mres sres []
-  let sigs := if mdump == sdump then sigs
-              else addSig sigs (if nanLine then "orderedfloat-nan-equals-everything" else "idx-deviation")
-  { model := m, spec := s, sig := if m == s then "-" else joinWith "+" sigs }
+  { model := m, spec := s, sig := if m == s then "-" else "idx-deviation" }
 
 def showI (i : Int) : String := toString i
 
-/-! float keys: canonical bit patterns (−0 ↦ +0, every NaN ↦ the quiet NaN), and the order
-"numeric, NaN greatest" of the specification as an `Int` key -/
+/-! float keys: canonical bit patterns (−0 ↦ +0, every NaN ↦ the quiet NaN); the specification
+orders them "numeric, NaN greatest" through the `Int` key `Idx.fkeyI` -/
 def nanBits : Nat := 0x7ff8000000000000
 def canonF (b : Nat) : Nat := if F64.isNaN b then nanBits else if b == 2 ^ 63 then 0 else b
-def fkeyI (b : Nat) : Int := if F64.isNaN b then (2 ^ 63 : Int) else F64.key b
 def fkeyInv (i : Int) : Nat := if i == (2 ^ 63 : Int) then nanBits else if i ≥ 0 then i.toNat else 2 ^ 63 + (-i).toNat
 def showF (b : Nat) : String := toString (canonF b)
-
-def opKeys {K : Type} : POp K → List K
-  | .ins k _ => [k]
-  | .rem k => [k]
-  | .get k => [k]
-  | .has k => [k]
-  | .range lo hi =>
-    (match lo with | .unb => [] | .inc k => [k] | .exc k => [k]) ++
-    (match hi with | .unb => [] | .inc k => [k] | .exc k => [k])
-  | _ => []
-
-/-- largest number of entries held during a history (model) -/
-def maxLen {K : Type} (cmp : K → K → Ordering) : BT K Nat → List (POp K) → Nat
-  | t, [] => bLen t
-  | t, o :: r =>
-    let t' := match o with
-      | .ins k v => (bInsert cmp t k v).1
-      | .rem k => (bRemove cmp t k).1
-      | .clear => bClear t
-      | _ => t
-    Nat.max (bLen t) (maxLen cmp t' r)
 
 def handleHash (prog : String) : Option Out := do
   let ops ← parseProg u64? false prog
@@ -212,26 +172,23 @@ def handleHash (prog : String) : Option Out := do
   let (a, sres) := runOps (sExec showI) [] (ops.map (opToInt (fun (k : Nat) => (k : Int))))
   let mdump := entsS showI (sortByKey (natKeyed m))
   let sdump := entsS showI (sortByKey a)
-  pure (mkOut false mres sres mdump sdump)
+  pure (mkOut mres sres mdump sdump)
 
 def handleBt (prog : String) : Option Out := do
   let ops ← parseProg i64? true prog
-  let (t, mres) := runOps (bExec icmp ieq showI) BT.empty ops
+  let (t, mres) := runOps (bExec icmp showI) BT.empty ops
   let (a, sres) := runOps (sExec showI) [] ops
   let mdump := entsS showI t.ents
   let sdump := entsS showI (sortByKey a)
-  pure (mkOut false mres sres mdump sdump)
+  pure (mkOut mres sres mdump sdump)
 
 def handleBtf (prog : String) : Option Out := do
   let ops ← parseProg u64? true prog
-  let nanLine := (ops.flatMap opKeys).any F64.isNaN
-  -- a NaN makes the answers depend on the shape of the B-tree; the model covers the single-leaf tree
-  if nanLine && maxLen fcmp BT.empty ops > 11 then none
-  let (t, mres) := runOps (bExec fcmp fkeq showF) BT.empty ops
+  let (t, mres) := runOps (bExec fcmp showF) BT.empty ops
   let (a, sres) := runOps (sExec (fun i => toString (fkeyInv i))) [] (ops.map (opToInt fkeyI))
   let mdump := entsS showF t.ents
   let sdump := entsS (fun i => toString (fkeyInv i)) (sortByKey a)
-  pure (mkOut nanLine mres sres mdump sdump)
+  pure (mkOut mres sres mdump sdump)
 
 /-! ### trie -/
 
